@@ -18,35 +18,6 @@ def ideal {w} (op : ShOp) (signed : Bool) (a : BitVec w) (n : Int) : BitVec w :=
   | .lshl => idealShift true a n
   | .lshr => idealShift true a (-n)
 
-/-- a right operand whose count the helpers handle without a wrapped negation: an integer kind,
-value in the kind's range, not the most negative value of a signed kind; a `*BigInt` that fits
-a word (the runtime only creates word-sized values as `SmallInt`, but the helpers accept both) -/
-def ROp.Regular (r : ROp) : Prop :=
-  match r.kind with
-  | .other => False
-  | .bigInt => -(2 ^ 63 : Int) < r.val ∧ r.val < 2 ^ 63
-  | .smallInt | .i64 => -(2 ^ 63 : Int) < r.val ∧ r.val < 2 ^ 63
-  | .i32 => -(2 ^ 31 : Int) < r.val ∧ r.val < 2 ^ 31
-  | .i16 => -(2 ^ 15 : Int) < r.val ∧ r.val < 2 ^ 15
-  | .i8 => -(2 ^ 7 : Int) < r.val ∧ r.val < 2 ^ 7
-  | .u64 | .uint => 0 ≤ r.val ∧ r.val < 2 ^ 64
-  | .u32 => 0 ≤ r.val ∧ r.val < 2 ^ 32
-  | .u16 => 0 ≤ r.val ∧ r.val < 2 ^ 16
-  | .u8 => 0 ≤ r.val ∧ r.val < 2 ^ 8
-
-theorem negWrap_regular (bits : Nat) (v : Int) (h : -(2 ^ (bits - 1) : Int) < v) : negWrap bits v = -v := by
-  unfold negWrap
-  split
-  · omega
-  · rfl
-
-theorem toU64_of_nonneg (v : Int) (h0 : 0 ≤ v) (h1 : v < 2 ^ 64) : toU64 v = v.toNat := by
-  unfold toU64
-  rw [Int.emod_eq_of_lt h0 h1]
-
-theorem fits64_of (v : Int) (h : -(2 ^ 63 : Int) < v ∧ v < 2 ^ 63) : fits64 v = true := by
-  simp [fits64]; omega
-
 theorem shlSat_eq {w} (a : BitVec w) (n : Nat) : shlSat a n = a <<< n := by
   unfold shlSat; split
   · rename_i h; rw [BitVec.shiftLeft_eq_zero h]
@@ -69,15 +40,25 @@ theorem ashrSat_eq {w} (a : BitVec w) (n : Nat) : ashrSat a n = a.sshiftRight n 
     have h3 : ¬ (n + i < w) := by omega
     rw [h1, if_neg h2, if_neg h3]
 
+/-- beyond the width an arithmetic shift only leaves the sign: all such counts agree -/
+theorem sshiftRight_sat {w} (a : BitVec w) (n m : Nat) (hn : w ≤ n) (hm : w ≤ m) :
+    a.sshiftRight n = a.sshiftRight m := by
+  rw [← ashrSat_eq a n, ← ashrSat_eq a m]
+  unfold ashrSat
+  rw [Nat.min_eq_right hn, Nat.min_eq_right hm]
+
+theorem ushiftRight_sat {w} (a : BitVec w) (n m : Nat) (hn : w ≤ n) (hm : w ≤ m) : a >>> n = a >>> m := by
+  rw [BitVec.ushiftRight_eq_zero hn, BitVec.ushiftRight_eq_zero hm]
+
+theorem goShl_eq {w} (a : BitVec w) (n : Nat) : goShl a n = .ok (a <<< n) := by
+  unfold goShl; rw [shlSat_eq]
+
+theorem goShr_eq {w} (signed : Bool) (a : BitVec w) (n : Nat) :
+    goShr signed a n = .ok (if signed then a.sshiftRight n else a >>> n) := by
+  unfold goShr; rw [ashrSat_eq, lshrSat_eq]
+
 theorem logShr_eq {w} (a : BitVec w) (n : Nat) : logShr a n = .ok (a >>> n) := by
   unfold logShr; rw [lshrSat_eq]
-
-theorem goShl_nonneg {w} (a : BitVec w) (n : Int) (h : 0 ≤ n) : goShl a n = .ok (a <<< n.toNat) := by
-  unfold goShl; rw [if_neg (by omega), shlSat_eq]
-
-theorem goShr_nonneg {w} (signed : Bool) (a : BitVec w) (n : Int) (h : 0 ≤ n) :
-    goShr signed a n = .ok (if signed then a.sshiftRight n.toNat else a >>> n.toNat) := by
-  unfold goShr; rw [if_neg (by omega), ashrSat_eq, lshrSat_eq]
 
 theorem idealShift_nonneg {w} (lr : Bool) (a : BitVec w) (l : Int) (h : 0 ≤ l) :
     idealShift lr a l = a <<< l.toNat := by
@@ -97,103 +78,103 @@ theorem idealShift_right {w} (lr : Bool) (a : BitVec w) (n : Int) (h : 0 ≤ n) 
 theorem bool_ite_not {α} (b : Bool) (x y : α) : (if (!b) = true then x else y) = if b = true then y else x := by
   cases b <;> simp
 
-/-- shape of every helper on a regular operand: a signed count `v` -/
-theorem leftShift_signedKind {w} (signed : Bool) (a : BitVec w) (k : RKind) (bits : Nat) (v : Int)
-    (hk : k.signedBits = some bits) (hko : k ≠ .other) (hv : -(2 ^ (bits - 1) : Int) < v) :
+/-- what `ROp.count` says about the exact count -/
+inductive CountSpec (v : Int) : Count → Prop where
+  | left : 0 ≤ v → CountSpec v (.left v.toNat)
+  | right : v < 0 → CountSpec v (.right (-v).toNat)
+  | hugeLeft : (2 ^ 63 : Int) ≤ v → CountSpec v .hugeLeft
+  | hugeRight : v < -(2 ^ 63 : Int) → CountSpec v .hugeRight
+
+theorem count_spec (k : RKind) (v : Int) (hk : k ≠ .other) : CountSpec v (ROp.count ⟨k, v⟩) := by
+  have small : CountSpec v (if v < 0 then Count.right (-v).toNat else Count.left v.toNat) := by
+    by_cases h : v < 0
+    · rw [if_pos h]; exact .right h
+    · rw [if_neg h]; exact .left (by omega)
+  cases k
+  case other => exact absurd rfl hk
+  case bigInt =>
+    simp only [ROp.count]
+    by_cases hf : fits64 v = true
+    · rw [if_pos hf]; exact small
+    · rw [if_neg hf]
+      have hf' : v < -(2 ^ 63 : Int) ∨ (2 ^ 63 : Int) ≤ v := by
+        simp [fits64] at hf; omega
+      by_cases hp : 0 < v
+      · rw [if_pos hp]; exact .hugeLeft (by omega)
+      · rw [if_neg hp]; exact .hugeRight (by omega)
+  all_goals exact small
+
+theorem leftShift_spec {w} (hw : w ≤ 64) (signed : Bool) (a : BitVec w) (k : RKind) (v : Int) (hk : k ≠ .other) :
     leftShift signed a ⟨k, v⟩ = .ok (idealShift (!signed) a v) := by
-  have hko' : (k == RKind.other) = false := by simpa using hko
-  simp only [leftShift, hko', hk, Bool.false_eq_true, if_false]
-  by_cases hneg : v < 0
-  · rw [if_pos hneg, negWrap_regular bits v hv, goShr_nonneg signed a (-v) (by omega),
-      idealShift_neg _ a v hneg, bool_ite_not]
-  · rw [if_neg hneg, goShl_nonneg a v (by omega), idealShift_nonneg _ a v (by omega)]
-
-theorem rightShift_signedKind {w} (signed : Bool) (a : BitVec w) (k : RKind) (bits : Nat) (v : Int)
-    (hk : k.signedBits = some bits) (hko : k ≠ .other) (hv : -(2 ^ (bits - 1) : Int) < v) :
-    rightShift signed a ⟨k, v⟩ = .ok (idealShift (!signed) a (-v)) := by
-  have hko' : (k == RKind.other) = false := by simpa using hko
-  simp only [rightShift, hko', hk, Bool.false_eq_true, if_false]
-  by_cases hneg : v < 0
-  · rw [if_pos hneg, negWrap_regular bits v hv, goShl_nonneg a (-v) (by omega),
-      idealShift_nonneg _ a (-v) (by omega)]
-  · rw [if_neg hneg, goShr_nonneg signed a v (by omega), idealShift_right _ a v (by omega), bool_ite_not]
-
-theorem logicalLeftShift_signedKind {w} (a : BitVec w) (k : RKind) (bits : Nat) (v : Int)
-    (hk : k.signedBits = some bits) (hko : k ≠ .other) (hv : -(2 ^ (bits - 1) : Int) < v)
-    (hlim : (2 : Int) ^ (bits - 1) ≤ 2 ^ 63) :
-    logicalLeftShift a ⟨k, v⟩ = .ok (idealShift true a v) := by
-  have hko' : (k == RKind.other) = false := by simpa using hko
-  simp only [logicalLeftShift, hko', hk, Bool.false_eq_true, if_false]
-  by_cases hneg : v < 0
-  · rw [if_pos hneg, negWrap_regular bits v hv, toU64_of_nonneg (-v) (by omega) (by omega),
-      idealShift_neg _ a v hneg, logShr_eq]
+  have hs := count_spec k v hk
+  unfold leftShift
+  generalize ROp.count ⟨k, v⟩ = c at hs ⊢
+  cases hs with
+  | left h => simp only; rw [goShl_eq, idealShift_nonneg _ a v h]
+  | right h => simp only; rw [goShr_eq, idealShift_neg _ a v h, bool_ite_not]
+  | hugeLeft h =>
+    simp only
+    rw [idealShift_nonneg _ a v (by omega), BitVec.shiftLeft_eq_zero (by omega)]
     rfl
-  · rw [if_neg hneg, goShl_nonneg a v (by omega), idealShift_nonneg _ a v (by omega)]
+  | hugeRight h =>
+    simp only
+    rw [goShr_eq, idealShift_neg _ a v (by omega), bool_ite_not,
+      sshiftRight_sat a 64 (-v).toNat hw (by omega), ushiftRight_sat a 64 (-v).toNat hw (by omega)]
 
-theorem logicalRightShift_signedKind {w} (a : BitVec w) (k : RKind) (bits : Nat) (v : Int)
-    (hk : k.signedBits = some bits) (hko : k ≠ .other) (hv : -(2 ^ (bits - 1) : Int) < v)
-    (hv2 : v < 2 ^ 64) :
-    logicalRightShift a ⟨k, v⟩ = .ok (idealShift true a (-v)) := by
-  have hko' : (k == RKind.other) = false := by simpa using hko
-  simp only [logicalRightShift, hko', hk, Bool.false_eq_true, if_false]
-  by_cases hneg : v < 0
-  · rw [if_pos hneg, negWrap_regular bits v hv, goShl_nonneg a (-v) (by omega),
-      idealShift_nonneg _ a (-v) (by omega)]
-  · rw [if_neg hneg, toU64_of_nonneg v (by omega) hv2, idealShift_right _ a v (by omega), logShr_eq]
+theorem rightShift_spec {w} (hw : w ≤ 64) (signed : Bool) (a : BitVec w) (k : RKind) (v : Int) (hk : k ≠ .other) :
+    rightShift signed a ⟨k, v⟩ = .ok (idealShift (!signed) a (-v)) := by
+  have hs := count_spec k v hk
+  unfold rightShift
+  generalize ROp.count ⟨k, v⟩ = c at hs ⊢
+  cases hs with
+  | left h => simp only; rw [goShr_eq, idealShift_right _ a v h, bool_ite_not]
+  | right h => simp only; rw [goShl_eq, idealShift_nonneg _ a (-v) (by omega)]
+  | hugeLeft h =>
+    simp only
+    rw [goShr_eq, idealShift_right _ a v (by omega), bool_ite_not,
+      sshiftRight_sat a 64 v.toNat hw (by omega), ushiftRight_sat a 64 v.toNat hw (by omega)]
+  | hugeRight h =>
+    simp only
+    rw [idealShift_nonneg _ a (-v) (by omega), BitVec.shiftLeft_eq_zero (by omega)]
     rfl
 
-theorem unsigned_facts (k : RKind) (hk : k.isUnsigned = true) :
-    (k == RKind.other) = false ∧ k.signedBits = none := by
-  cases k <;> simp_all [RKind.isUnsigned, RKind.signedBits]
-
-/-- an unsigned count -/
-theorem leftShift_unsignedKind {w} (signed : Bool) (a : BitVec w) (k : RKind) (v : Int)
-    (hk : k.isUnsigned = true) (hv : 0 ≤ v) :
-    leftShift signed a ⟨k, v⟩ = .ok (idealShift (!signed) a v) := by
-  obtain ⟨hko', hsb⟩ := unsigned_facts k hk
-  simp only [leftShift, hko', hsb, hk, Bool.false_eq_true, if_false, if_true]
-  rw [goShl_nonneg a v hv, idealShift_nonneg _ a v hv]
-
-theorem rightShift_unsignedKind {w} (signed : Bool) (a : BitVec w) (k : RKind) (v : Int)
-    (hk : k.isUnsigned = true) (hv : 0 ≤ v) :
-    rightShift signed a ⟨k, v⟩ = .ok (idealShift (!signed) a (-v)) := by
-  obtain ⟨hko', hsb⟩ := unsigned_facts k hk
-  simp only [rightShift, hko', hsb, hk, Bool.false_eq_true, if_false, if_true]
-  rw [goShr_nonneg signed a v hv, idealShift_right _ a v hv, bool_ite_not]
-
-theorem logicalLeftShift_unsignedKind {w} (a : BitVec w) (k : RKind) (v : Int)
-    (hk : k.isUnsigned = true) (hv : 0 ≤ v) :
+theorem logicalLeftShift_spec {w} (hw : w ≤ 64) (a : BitVec w) (k : RKind) (v : Int) (hk : k ≠ .other) :
     logicalLeftShift a ⟨k, v⟩ = .ok (idealShift true a v) := by
-  obtain ⟨hko', hsb⟩ := unsigned_facts k hk
-  simp only [logicalLeftShift, hko', hsb, hk, Bool.false_eq_true, if_false, if_true]
-  rw [goShl_nonneg a v hv, idealShift_nonneg _ a v hv]
+  have hs := count_spec k v hk
+  unfold logicalLeftShift
+  generalize ROp.count ⟨k, v⟩ = c at hs ⊢
+  cases hs with
+  | left h => simp only; rw [goShl_eq, idealShift_nonneg _ a v h]
+  | right h => simp only; rw [logShr_eq, idealShift_neg _ a v h]; rfl
+  | hugeLeft h =>
+    simp only
+    rw [idealShift_nonneg _ a v (by omega), BitVec.shiftLeft_eq_zero (by omega)]
+    rfl
+  | hugeRight h =>
+    simp only
+    rw [idealShift_neg _ a v (by omega), if_pos rfl, BitVec.ushiftRight_eq_zero (by omega)]
+    rfl
 
-theorem logicalRightShift_unsignedKind {w} (a : BitVec w) (k : RKind) (v : Int)
-    (hk : k.isUnsigned = true) (hv : 0 ≤ v) (hv2 : v < 2 ^ 64) :
+theorem logicalRightShift_spec {w} (hw : w ≤ 64) (a : BitVec w) (k : RKind) (v : Int) (hk : k ≠ .other) :
     logicalRightShift a ⟨k, v⟩ = .ok (idealShift true a (-v)) := by
-  obtain ⟨hko', hsb⟩ := unsigned_facts k hk
-  simp only [logicalRightShift, hko', hsb, hk, Bool.false_eq_true, if_false, if_true]
-  rw [toU64_of_nonneg v hv hv2, idealShift_right _ a v hv, logShr_eq]
-  rfl
-
-/-- a `*BigInt` count that fits a word behaves like a `SmallInt` count -/
-theorem leftShift_big {w} (signed : Bool) (a : BitVec w) (v : Int) :
-    fits64 v = true → leftShift signed a ⟨.bigInt, v⟩ = leftShift signed a ⟨.smallInt, v⟩ := by
-  intro h; simp [leftShift, RKind.signedBits, RKind.isUnsigned, h]
-
-theorem rightShift_big {w} (signed : Bool) (a : BitVec w) (v : Int) :
-    fits64 v = true → rightShift signed a ⟨.bigInt, v⟩ = rightShift signed a ⟨.smallInt, v⟩ := by
-  intro h; simp [rightShift, RKind.signedBits, RKind.isUnsigned, h]
-
-theorem logicalLeftShift_big {w} (a : BitVec w) (v : Int) :
-    fits64 v = true → logicalLeftShift a ⟨.bigInt, v⟩ = logicalLeftShift a ⟨.smallInt, v⟩ := by
-  intro h; simp [logicalLeftShift, RKind.signedBits, RKind.isUnsigned, h]
-
-theorem logicalRightShift_big {w} (a : BitVec w) (v : Int) :
-    fits64 v = true → logicalRightShift a ⟨.bigInt, v⟩ = logicalRightShift a ⟨.smallInt, v⟩ := by
-  intro h; simp [logicalRightShift, RKind.signedBits, RKind.isUnsigned, h]
+  have hs := count_spec k v hk
+  unfold logicalRightShift
+  generalize ROp.count ⟨k, v⟩ = c at hs ⊢
+  cases hs with
+  | left h => simp only; rw [logShr_eq, idealShift_right _ a v h]; rfl
+  | right h => simp only; rw [goShl_eq, idealShift_nonneg _ a (-v) (by omega)]
+  | hugeLeft h =>
+    simp only
+    rw [idealShift_right _ a v (by omega), if_pos rfl, BitVec.ushiftRight_eq_zero (by omega)]
+    rfl
+  | hugeRight h =>
+    simp only
+    rw [idealShift_nonneg _ a (-v) (by omega), BitVec.shiftLeft_eq_zero (by omega)]
+    rfl
 
 /-! ### the bitshift TypeError depends on the operand's kind only -/
+
+theorem count_other (v : Int) : ROp.count ⟨.other, v⟩ = .notAnInt := rfl
 
 theorem shift_typeErr_iff {w} (op : ShOp) (signed : Bool) (a : BitVec w) (k : RKind) (v : Int) :
     shift op signed a ⟨k, v⟩ = .bitshiftOperand ↔ k = .other := by
@@ -202,13 +183,13 @@ theorem shift_typeErr_iff {w} (op : ShOp) (signed : Bool) (a : BitVec w) (k : RK
     by_cases hk : k = .other
     · exact hk
     · exfalso
-      have hko' : (k == RKind.other) = false := by simpa using hk
-      cases op <;> cases signed <;>
-        simp only [shift, leftShift, rightShift, logicalLeftShift, logicalRightShift, hko', goShl, goShr, logShr,
-          Bool.false_eq_true, if_false, if_true] at h <;>
-        (repeat' split at h) <;> simp_all
+      have hs := count_spec k v hk
+      simp only [shift, leftShift, rightShift, logicalLeftShift, logicalRightShift, goShl, goShr, logShr] at h
+      generalize ROp.count ⟨k, v⟩ = c at hs h
+      cases op <;> cases signed <;> cases hs <;> simp at h
   · intro h; subst h
-    cases op <;> cases signed <;> simp [shift, leftShift, rightShift, logicalLeftShift, logicalRightShift]
+    cases op <;> cases signed <;>
+      simp [shift, leftShift, rightShift, logicalLeftShift, logicalRightShift, count_other]
 
 /-! ### wrapped power -/
 
